@@ -1043,6 +1043,11 @@ func (e *Exec) deliver(bi, ti int, rec *blockRecord, h int64) {
 				e.addViol(viol("C11", "rejected-tx-left-trace", e.step, map[string]string{"stage": "handler-failed", "kind": spec.Kind},
 					"a %s transaction whose message failed (code %d) changed %d key(s) besides the fee, e.g. %s", spec.Kind, resp0.Code, len(extra), extra[0]))
 			}
+			if len(extra) > 0 && (spec.Kind == "change_param" || spec.Kind == "dao_transfer" || spec.Kind == "dao_burn" || spec.Kind == "upgrade") {
+				// C17 says it for governance messages in its own words: "every other governance message is rejected and changes nothing"
+				e.addViol(viol("C17", "rejected-gov-msg-changed-state", e.step, map[string]string{"kind": spec.Kind},
+					"a rejected %s message (code %d) changed %d key(s) besides the fee, e.g. %s", spec.Kind, resp0.Code, len(extra), extra[0]))
+			}
 			// ... and the two accounts it may touch change by the fee, nothing else
 			if sa := hx(e.kr.Get(spec.Acct).Addr); before.HasKey[sa] != st.HasKey[sa] {
 				e.addViol(viol("C11", "rejected-tx-left-trace", e.step, map[string]string{"stage": "handler-failed", "kind": spec.Kind, "what": "sender-record"},
